@@ -1070,6 +1070,22 @@ class _Replace(Array):
     def lower(self, args: LowerArgs) -> evaluable.Array:
         arg = self._arg.lower(args)
         replacements = {name: value.lower(args.without_points) for name, value in self._replacements.items()}
+        # The replacements end up inside the loops of `arg`. A loop of a
+        # replacement must not reuse the id of a loop of `arg`: nested loops
+        # with the same id are not supported (the simplifier would capture the
+        # outer loop index).
+        taken = {loop.loop_id for loop in arg._loops}
+        for name, value in replacements.items():
+            own = {loop.loop_id for loop in value._loops}
+            if own & taken:
+                id_map = {}
+                n = 0
+                for old in sorted(own & taken, key=str):
+                    while evaluable._LoopId(('_replaced', n)) in taken | own:
+                        n += 1
+                    id_map[old] = evaluable._LoopId(('_replaced', n))
+                    own.add(id_map[old])
+                replacements[name] = util.shallow_replace(id_map.get, value)
         return evaluable.replace_arguments(arg, replacements)
 
 
